@@ -102,7 +102,7 @@ theorem rBytes_append' (a rest : Bytes) : rBytes a.length (a ++ rest) = .ok (a, 
 
 /-- sizes and ranges that the format can store (independent of the order of bins, chunks and tiles) -/
 structure RefBounds (r : RefIndex) : Prop where
-  nb : r.bins.length + 1 < 2147483648
+  nb : r.bins.length + (if r.stats.isSome then 1 else 0) < 2147483648
   bins : ∀ b, b ∈ r.bins → b.bin < 4294967296 ∧ b.bin ≠ statsDummyBin ∧ b.chunks.length < 2147483648 ∧
     ∀ c, c ∈ b.chunks → OffOK c.b ∧ OffOK c.e
   stats : ∀ s, r.stats = some s →
@@ -136,7 +136,7 @@ theorem sortRef_sorted (r : RefIndex) : RefSorted (sortRef r) :=
 
 theorem sortRef_bounds (r : RefIndex) (h : RefBounds r) : RefBounds (sortRef r) :=
   { nb := by
-      show ((r.bins.mergeSort leBin).map _).length + 1 < _
+      show ((r.bins.mergeSort leBin).map _).length + (if r.stats.isSome then 1 else 0) < _
       rw [List.length_map, (List.mergeSort_perm r.bins leBin).length_eq]; exact h.nb
     bins := by
       intro b hb
@@ -253,6 +253,7 @@ theorem rBins_wBins (r : RefIndex) (hb : RefBounds r) (hs : RefSorted r) (rest :
   unfold rBins wBins
   cases hst : r.stats with
   | some s =>
+    simp only [hst, Option.isSome_some, if_true] at hnb
     simp only
     have : i32 ((r.bins.length : Int) + 1) ++ r.bins.flatMap wBin ++ wStats s ++ rest =
         i32 ((r.bins.length : Int) + 1) ++ (r.bins.flatMap wBin ++ (wStats s ++ rest)) := by
@@ -267,6 +268,7 @@ theorem rBins_wBins (r : RefIndex) (hb : RefBounds r) (hs : RefSorted r) (rest :
     simp only [List.append_nil, List.reverse_reverse]
     rw [List.mergeSort_of_pairwise hs.bins]
   | none =>
+    simp only [hst, Option.isSome_none, Bool.false_eq_true, if_false, Nat.add_zero] at hnb
     simp only
     have : i32 (r.bins.length : Int) ++ r.bins.flatMap wBin ++ rest =
         i32 (r.bins.length : Int) ++ (r.bins.flatMap wBin ++ rest) := by simp [List.append_assoc]
